@@ -25,6 +25,8 @@ ASSUMPTIONS = [
 FACTORS = [1, 2, 10, 0.1, 0.001, 0.5, -1, -0.25, 3, 1 / 3, 2.5e-7, 1e-9, -3e-8, 1e6, 12345.678]
 SDO_TYPES = codec.INT_TYPES
 PDO_TYPES = ["UNSIGNED8", "INTEGER16", "UNSIGNED32", "INTEGER32"]
+# widths other than 32 for slices with an open end (the end is the variable's own top bit)
+OPEN_TYPES = {"sdo": ["UNSIGNED8", "UNSIGNED16", "UNSIGNED24", "UNSIGNED40", "UNSIGNED64"], "pdo": ["UNSIGNED8", "UNSIGNED16"]}
 
 
 def bounds(tier):
@@ -43,6 +45,8 @@ def cases(tier, seed):
         out.append({"part": "desc", "transport": tr})
         for lo in range(32):
             out.append({"part": "bits", "lo": lo, "transport": tr})
+        for t in OPEN_TYPES[tr]:
+            out.append({"part": "bits-open", "type": t, "transport": tr})
     k = seed % len(out)
     return out[k:] + out[:k]
 
@@ -234,6 +238,11 @@ def run_bits(case, st):
                      "name": "FIELD"}
         if width == 1:
             spellings["int"] = lo
+        if lo == 0:
+            spellings["slice-open-lo"] = slice(None, hi)
+        if hi == 32:
+            # the variable is 32 bits wide: an open end is its top bit
+            spellings["slice-open-hi"] = slice(lo, None)
         mask = ((1 << width) - 1) << lo
         vals = sorted({0, 1, (1 << width) - 1, int("01" * 16, 2) & ((1 << width) - 1)})
         for sp, key in spellings.items():
@@ -261,6 +270,38 @@ def run_bits(case, st):
                                      repr(e)[:100])
                     st.outcome("bits ok")
     st.sample({"bits": case}, cap=2)
+
+
+def run_bits_open(case, st):
+    h = Harness(case["type"], transport=case["transport"])
+    w = h.w
+    full = (1 << w) - 1
+    for lo in range(w):
+        for sp, key, a, b in (("slice-open-hi", slice(lo, None), lo, w), ("slice-open-lo", slice(None, lo + 1), 0, lo + 1),
+                              ("slice-open-both", slice(None, None), 0, w)):
+            if sp == "slice-open-both" and lo:
+                continue
+            width = b - a
+            mask = ((1 << width) - 1) << a
+            for base in (0, full, int("A5" * 8, 16) & full):
+                for v in sorted({0, 1, (1 << width) - 1, int("01" * 32, 2) & ((1 << width) - 1)}):
+                    st.evaluations += 1
+                    st.nontrivial.add(("bits-open", case["type"], sp, lo, case["transport"]))
+                    rc = dict(case, lo=lo, spelling=sp, base=base, v=v)
+                    h.set_raw_bytes(base)
+                    try:
+                        h.var.bits[key] = v
+                        got, want = h.raw(), (base & ~mask) | (v << a)
+                        if got != want:
+                            st.violation(f"C20:bits:set:{sp}:{case['transport']}", rc, hex(want), hex(got))
+                            continue
+                        rd = h.var.bits[key]
+                        if rd != v:
+                            st.violation(f"C20:bits:get:{sp}:{case['transport']}", rc, v, rd)
+                    except Exception as e:  # noqa: BLE001
+                        st.violation(f"C20:bits:raises:{type(e).__name__}:{sp}:{case['transport']}", rc, "field updated",
+                                     repr(e)[:100])
+                    st.outcome("bits ok")
 
 
 def run_retry(case, st):
@@ -322,7 +363,7 @@ def run_retry(case, st):
 
 
 def run_case(case, st):
-    {"phys": run_phys, "desc": run_desc, "bits": run_bits, "retry": run_retry}[case["part"]](case, st)
+    {"phys": run_phys, "desc": run_desc, "bits": run_bits, "bits-open": run_bits_open, "retry": run_retry}[case["part"]](case, st)
 
 
 def finish(st, tier):
